@@ -12,7 +12,7 @@ LEVEL_TEXT = (
     'cleared in this iteration), plus the coverage rules of C01 that "exact on forests" presupposes. '
     'Exactness on forest-shaped models as a semantic statement is not decided.')
 
-FLOORS = {'C03-R2': 3, 'C03-R3': 4, 'C03-R4': 1, 'C03-R7': 1, 'C11-R1': 14, 'C01-R1': 3, 'C01-R2': 3, 'C01-R3': 12,
+FLOORS = {'C03-R2': 3, 'C03-R3': 4, 'C03-R4': 1, 'C03-R7': 1, 'C03-R8': 1, 'C11-R1': 14, 'C01-R1': 3, 'C01-R2': 3, 'C01-R3': 12,
           'C01-R4': 8, 'C01-R5': 3, 'C01-R7': 5, 'C01-R9': 3, 'C01-R10': 4}
 
 
@@ -161,6 +161,10 @@ def run(ctx):
     ctx.doc('C03-R7', 'simulation: the per-trace cycle-detection set is fresh for every trace')
     with ctx.rule('C03-R7', 'SIM'):
         c03.r7_sim_fresh_cycle_set(ctx, F)
+    ctx.doc('C03-R8', 'simulation: the recorded / evaluated state itself passed within_boundary (an initial state '
+                      'outside the boundary is not a maximal in-boundary path)')
+    with ctx.rule('C03-R8', 'SIM'):
+        c03.r8_sim_evaluated_state_in_boundary(ctx, F)
     r1_bits(ctx, F)
     # exactness on forests presupposes that every reachable in-boundary state is evaluated
     import c01
